@@ -218,7 +218,8 @@ const MANDATORY: &[Node<'static, MinDev>] = &[
     scpi_contrib::ieee488::common::ClsCommand::node(),
     ieee488_ese!(),
     ieee488_esr!(),
-    ieee488_idn!(b"VERIF", b"T800", b"0", b"1"),
+    // identification fields as long as a vendor cares to make them (the library puts no limit on them)
+    ieee488_idn!(b"VERIFICATION_HARNESS_INSTRUMENTS_INCORPORATED", b"T800_EXTENDED_RANGE_OPTION_B", b"SN0000000000012345", b"FW1_2_3_BOOT4_5_6_FPGA7_8"),
     ieee488_opc!(),
     ieee488_rst!(),
     ieee488_sre!(),
@@ -231,6 +232,9 @@ const MANDATORY: &[Node<'static, MinDev>] = &[
 /// default) branch of the root, built with the `Node::*` constructors and the
 /// `ClsCommand::node()` helper instead of the macros. Every message means the
 /// same on both trees.
+/// What `*IDN?` answers on `MIN_TREE_ALT`.
+pub const ALT_IDN: &[u8] = b"VERIFICATION_HARNESS_INSTRUMENTS_INCORPORATED,T800_EXTENDED_RANGE_OPTION_B,SN0000000000012345,FW1_2_3_BOOT4_5_6_FPGA7_8";
+
 pub const MIN_TREE_ALT: Node<'static, MinDev> = Node::root(&[
     Node::default_branch(b"", MANDATORY),
     // the STATus subsystem assembled by hand from the documented command type aliases
